@@ -90,6 +90,21 @@ def main():
                 bad = int(np.argmax((res != want).any(axis=1)))
                 return dict(reproduced=True, call='SSASimulator.py_simulate(%s) seed=%d reactions=%r x0=%r T=%r' % (cls.__name__, seed, rxs, x0, T.tolist()),
                             observed=res[bad].tolist(), expected=want[bad].tolist(), row=bad)
+    # selection among weights of very different magnitude (a fast reaction listed before many slow ones): a choice must carry positive
+    # weight and the slow reactions must be chosen in proportion (the cumulative sum has to be kept in double precision)
+    from bioscrape.random import py_sample_discrete, py_seed_random as _seed
+    w = np.array([float(2 ** 24)] + [0.8] * 2000 + [0.0])
+    _seed(11)
+    tail = []
+    for _ in range(400000):
+        i = py_sample_discrete(len(w), w, float(w.sum()))
+        if i > 0:
+            tail.append(i)
+        if len(tail) >= 30:
+            break
+    n += 1
+    if any(w[i] == 0 for i in tail) or (len(tail) >= 10 and len(set(tail)) < len(tail) // 2):
+        return dict(reproduced=True, call='py_sample_discrete(weights [2^24, 0.8 x 2000, 0.0])', observed=tail[:12], expected='indices of positive weight, spread over the slow reactions')
     return dict(reproduced=False, evaluations=n)
 
 
